@@ -169,7 +169,7 @@ def run(spec, cfg=None, mode="check", workers=None, env=None, timeout=1200, cove
         workers = min(16, os.cpu_count() or 4)
     meta = os.path.join(WORK, "tlc", (tag or spec) + "-" + uuid.uuid4().hex[:8])
     os.makedirs(meta, exist_ok=True)
-    java = ["java", "-XX:+UseParallelGC", "-Xmx" + heap]
+    java = ["java", "-XX:+UseParallelGC", "-Xmx" + heap, "-Xss64m"]
     if dfs:
         java.append("-Dtlc2.tool.queue.IStateQueue=StateDeque")
     cmd = java + ["-cp", JAR, "tlc2.TLC", "-config", cfg + ".cfg", "-workers", str(workers),
